@@ -13,6 +13,7 @@ import (
 	"encoding/binary"
 	"encoding/hex"
 	"fmt"
+	"github.com/cnotch/ipchub/utils/vhook"
 	"io"
 	"net"
 	"net/http"
@@ -20,6 +21,7 @@ import (
 	"regexp"
 	"strings"
 	"sync"
+	"sync/atomic"
 	"testing"
 	"time"
 
@@ -424,6 +426,16 @@ func TestTransports(t *testing.T) {
 		rounds = 12
 	}
 	total := 0
+	// a slow socket now and then: every 7th WebSocket message waits 300 us at the entry of the write - encoded, in its
+	// pooled buffer - so that the players' delivery goroutines are not always at the same packet (PooledWrite.tla)
+	var wsWrites, wsSlow int64
+	vhook.SetHandler(func(p string, x interface{}) {
+		if p == "ws.write" && atomic.AddInt64(&wsWrites, 1)%7 == 0 {
+			atomic.AddInt64(&wsSlow, 1)
+			time.Sleep(300 * time.Microsecond)
+		}
+	})
+	defer vhook.SetHandler(nil)
 	for round := 1; round <= rounds; round++ {
 		path := fmt.Sprintf("/tr/s%d_%d", vio.Seed(), round)
 		st := media.NewStream(path, sdpAV)
@@ -567,5 +579,5 @@ func TestTransports(t *testing.T) {
 		media.Unregist(st)
 		st.Close()
 	}
-	vio.WriteJSON(t, "VERIF_OUT2", map[string]interface{}{"rounds": rounds, "items": total})
+	vio.WriteJSON(t, "VERIF_OUT2", map[string]interface{}{"rounds": rounds, "items": total, "ws_writes": atomic.LoadInt64(&wsWrites), "ws_writes_slowed": atomic.LoadInt64(&wsSlow)})
 }
